@@ -77,8 +77,10 @@ def _build(R, mx, dx0, jnt_type, W):
         m2 = mx.replace(**{k: getattr(mx, k) + theta["p_" + k] for k in PARAMS})
         m2 = m2.replace(opt=m2.opt.replace(gravity=m2.opt.gravity + theta["p_gravity"]))
         d = dx0.replace(qpos=qpos, qvel=theta["qvel"], ctrl=theta["ctrl"], act=theta["act"])
-        df = mjx.forward(m2, d)
+        # one pipeline only (XLA compile time): mjx.step returns the forward quantities of the pre-step state (of the last
+        # RK stage for RK4) next to the advanced state - any of them is a legitimate differentiable output of step
         ds = mjx.step(m2, d)
+        df = ds
         groups = {
             "qacc": [df.qacc],
             "bias_passive": [df.qfrc_bias, df.qfrc_passive],
@@ -147,6 +149,7 @@ def check_model(R, xml, tags, case, P):
     jnt_type = tuple(int(t) for t in m.jnt_type)
     F = _build(R, None, None, jnt_type, None)
     jitted = {}
+    CW = jp.array(rng.uniform(0.5, 1.5, size=len(GROUPS)) * rng.choice([-1.0, 1.0], size=len(GROUPS)))
     integ = [t for t in tags if t.startswith("int:")][0]
     prof = tags and [t for t in tags if t in mjxrepo.PROFILES][0]
     feat = "h%x" % (core.stable_hash(*[t for t in tags if t.split(":")[0] in ("jnt", "act", "eq", "tendon", "wrap", "sensor")
@@ -204,8 +207,8 @@ def check_model(R, xml, tags, case, P):
             def ad(x, V, mx, dxb, W):
                 f = lambda y: flat(y, mx, dxb, W)
                 out = {"f": f(x), "jvp": jax.vmap(lambda v: jax.jvp(f, (x,), (v,))[1])(V)}
-                if "rev" in modes:
-                    out["jac"] = jax.jacrev(f)(x)
+                if "rev" in modes:   # one reverse pass: gradient of a fixed random combination of the six functionals
+                    out["grad"] = jax.grad(lambda y: jp.dot(CW, f(y)))(x)
                 return out
 
             def fdpts(X, mx, dxb, W):
@@ -229,67 +232,85 @@ def check_model(R, xml, tags, case, P):
                 X += [np.asarray(x0) + e * v, np.asarray(x0) - e * v]
         Y = np.asarray(jfd(jp.array(np.stack(X)), mx, dxb, W))
         jvp = np.asarray(A["jvp"])
-        jac = np.asarray(A["jac"]) if "jac" in A else None
+        grad = np.asarray(A["grad"]) if "grad" in A else None
+        cw = np.asarray(CW)
         for di, (v, vname) in enumerate(zip(dirs, dnames)):
             yp1, ym1, yp2, ym2 = Y[4 * di], Y[4 * di + 1], Y[4 * di + 2], Y[4 * di + 3]
             fd1 = (yp1 - ym1) / (2 * eps[0])
             fd2 = (yp2 - ym2) / (2 * eps[1])
             fwd = (yp1 - f0) / eps[0]
             bwd = (f0 - ym1) / eps[0]
+            all_smooth = True
             for gi, g in enumerate(GROUPS):
                 if sizes[g] == 0:
                     continue
                 scale = max(abs(fd1[gi]), 1e-4 * (1 + abs(f0[gi])))
-                cands = [("fwd", jvp[di, gi])]
-                if jac is not None:
-                    cands.append(("rev", float(jac[gi] @ v)))
-                for mode, a in cands:
-                    P.count("derivatives_evaluated")
-                    sig_tail = "%s-wrt-%s[%s]" % (g, vname, mode)
-                    det = dict(base, state=st, state_kind=kind, group=g, var=vname, mode=mode, ad=float(a) if np.isfinite(a) else str(a),
-                               fd=[float(fd1[gi]), float(fd2[gi])], f0=float(f0[gi]))
-                    if not np.isfinite(a):
-                        if np.all(np.isfinite([fd1[gi], fd2[gi]])):
-                            P.violation("gradient-non-finite:" + sig_tail + ("@rest" if kind == "rest" else ""), det)
-                        else:
-                            P.count("skipped_fd_nonfinite")
-                        continue
-                    if not np.all(np.isfinite([fd1[gi], fd2[gi], fwd[gi], bwd[gi]])):
+                a = jvp[di, gi]
+                P.count("derivatives_evaluated")
+                sig_tail = "%s-wrt-%s[fwd]" % (g, vname)
+                det = dict(base, state=st, state_kind=kind, group=g, var=vname, mode="fwd",
+                           ad=float(a) if np.isfinite(a) else str(a), fd=[float(fd1[gi]), float(fd2[gi])], f0=float(f0[gi]))
+                if not np.isfinite(a):
+                    all_smooth = False
+                    if np.all(np.isfinite([fd1[gi], fd2[gi]])):
+                        P.violation("gradient-non-finite:" + sig_tail + ("@rest" if kind == "rest" else ""), det)
+                    else:
                         P.count("skipped_fd_nonfinite")
-                        continue
-                    if abs(fd1[gi] - fd2[gi]) > 1e-5 * scale + 1e-9 * (1 + abs(f0[gi])) / eps[0] * 1e-3 or \
-                            abs(fwd[gi] - bwd[gi]) > 1e-3 * max(scale, abs(fwd[gi]), abs(bwd[gi])):
-                        P.count("skipped_nonsmooth_point")
-                        continue
-                    err = abs(a - fd1[gi]) / max(scale, abs(a))
-                    P.note_max("relerr_%s_%s" % (g, mode), err)
-                    nontriv = abs(fd1[gi]) > 1e-7 * (1 + abs(f0[gi]))
-                    P.case("|".join([g, vname, mode, prof, integ, kind, feat]), nontrivial=bool(nontriv))
-                    if err > 1e-4:
-                        cause = _rest_cause(mj, m, kind, g, vname)
-                        if cause:
-                            P.violation("gradient-differs-from-finite-difference@rest:%s[%s]" % (cause, mode), dict(det, relerr=float(err)))
-                        else:
-                            P.violation("gradient-differs-from-finite-difference:" + sig_tail, dict(det, relerr=float(err)))
-                if jac is not None and np.isfinite(jvp[di, gi]) and np.all(np.isfinite(jac[gi])):
-                    r = float(jac[gi] @ v)
-                    e2 = abs(r - jvp[di, gi]) / max(abs(r), abs(jvp[di, gi]), 1e-6 * (1 + abs(f0[gi])))
+                    continue
+                if not np.all(np.isfinite([fd1[gi], fd2[gi], fwd[gi], bwd[gi]])):
+                    P.count("skipped_fd_nonfinite")
+                    all_smooth = False
+                    continue
+                if abs(fd1[gi] - fd2[gi]) > 1e-5 * scale or \
+                        abs(fwd[gi] - bwd[gi]) > 1e-3 * max(scale, abs(fwd[gi]), abs(bwd[gi])):
+                    P.count("skipped_nonsmooth_point")
+                    all_smooth = False
+                    continue
+                err = abs(a - fd1[gi]) / max(scale, abs(a))
+                P.note_max("relerr_%s_fwd" % g, err)
+                nontriv = abs(fd1[gi]) > 1e-7 * (1 + abs(f0[gi]))
+                P.case("|".join([g, vname, "fwd", prof, integ, kind, feat]), nontrivial=bool(nontriv))
+                if err > 1e-4:
+                    cause = _rest_cause(mj, m, kind, g, vname)
+                    if cause:
+                        P.violation("gradient-differs-from-finite-difference@rest:%s[fwd]" % cause, dict(det, relerr=float(err)))
+                    else:
+                        P.violation("gradient-differs-from-finite-difference:" + sig_tail, dict(det, relerr=float(err)))
+            if grad is not None:
+                P.count("derivatives_evaluated")
+                r = float(grad @ v)
+                fdc = float(cw @ fd1)
+                jc = float(cw @ jvp[di])
+                det = dict(base, state=st, state_kind=kind, group="combined", var=vname, mode="rev", ad=r, fd=fdc, fwd=jc)
+                if not np.isfinite(r):
+                    if np.isfinite(fdc):
+                        P.violation("gradient-non-finite:combined-wrt-%s[rev]" % vname + ("@rest" if kind == "rest" else ""), det)
+                    continue
+                if np.isfinite(jc):
+                    e2 = abs(r - jc) / max(abs(r), abs(jc), 1e-6 * (1 + float(np.abs(cw * f0).sum())))
                     P.note_max("relerr_fwd_vs_rev", e2)
+                    P.case("|".join(["combined", vname, "rev", prof, integ, kind, feat]), nontrivial=abs(jc) > 0)
                     if e2 > 1e-7:
-                        P.violation("forward-and-reverse-mode-disagree:%s-wrt-%s" % (g, vname),
-                                    dict(base, state=st, state_kind=kind, group=g, var=vname, fwd=float(jvp[di, gi]), rev=r))
-        if jac is not None and not np.all(np.isfinite(jac)):
-            bad = sorted({GROUPS[i] for i in np.argwhere(~np.isfinite(jac))[:, 0]})
-            # attribute the non-finite entries to variable classes
-            names = []
-            off = 0
-            th_shapes = [(k, int(np.prod(np.shape(v)))) for k, v in sorted(theta0.items())]
-            cols = np.argwhere(~np.isfinite(jac))[:, 1]
-            for k, sz in th_shapes:
+                        P.violation("forward-and-reverse-mode-disagree:combined-wrt-%s" % vname, det)
+                if all_smooth and np.isfinite(fdc):
+                    scale = max(abs(fdc), 1e-4 * (1 + float(np.abs(cw * f0).sum())))
+                    err = abs(r - fdc) / max(scale, abs(r))
+                    P.note_max("relerr_combined_rev", err)
+                    if err > 1e-4:
+                        causes = {_rest_cause(mj, m, kind, g, vname) for g in GROUPS} - {None}
+                        if causes:
+                            P.violation("gradient-differs-from-finite-difference@rest:%s[rev]" % sorted(causes)[0], dict(det, relerr=float(err)))
+                        else:
+                            P.violation("gradient-differs-from-finite-difference:combined-wrt-%s[rev]" % vname, dict(det, relerr=float(err)))
+        if grad is not None and not np.all(np.isfinite(grad)):
+            names, off = [], 0
+            cols = np.argwhere(~np.isfinite(grad))[:, 0]
+            for k in sorted(theta0):
+                sz = int(np.prod(np.shape(theta0[k])))
                 if np.any((cols >= off) & (cols < off + sz)):
                     names.append(k)
                 off += sz
-            P.violation("gradient-non-finite:jacrev[%s]-wrt-%s" % (",".join(bad), ",".join(names)) + ("@rest" if kind == "rest" else ""),
+            P.violation("gradient-non-finite:reverse-mode-wrt-%s" % ",".join(names) + ("@rest" if kind == "rest" else ""),
                         dict(base, state=st, state_kind=kind))
         P.count("states_evaluated")
 
@@ -320,7 +341,7 @@ def _cases(ctx):
 
 def run(ctx):
     cases = _cases(ctx)
-    results = par.run("vf.props.c45", "worker", cases, nproc=8, timeout=ctx.pick(1200, 3000), chunk=1 if ctx.quick else None)
+    results = par.run("vf.props.c45", "worker", cases, nproc=8, timeout=ctx.pick(2400, 3600), chunk=1 if ctx.quick else None)
     fails = 0
     for c, r in zip(cases, results):
         if r is None or "crash" in r or "exception" in r:
